@@ -232,4 +232,51 @@ example : Src.tbutils.TracebackInfo.get_formatted
         ++ "  File \"a.py\", line 3, in f\n    x\n" ++ "  File \"a.py\", line 3, in f\n    x\n"
         ++ "  [Previous line repeated 2 more times]\n").toList := by decide
 
+/-! ## ExceptionInfo: get_formatted_exception_only, get_formatted, the display name of from_exc_info -/
+
+/-- **tie**: the generated `ExceptionInfo.get_formatted_exception_only` is the model's `eiExcOnly` -/
+theorem src_ei_exc_only_eq_model (etype msg : Str) :
+    Src.tbutils.ExceptionInfo.get_formatted_exception_only etype msg = eiExcOnly etype msg := by
+  unfold Src.tbutils.ExceptionInfo.get_formatted_exception_only eiExcOnly
+  simp only [lit_colon]
+  by_cases hm : msg = []
+  · simp [hm, truthy]
+  · have : truthy msg = true := (truthy_iff msg).2 hm
+    simp [hm, this]
+
+example : Src.tbutils.ExceptionInfo.get_formatted_exception_only "E".toList "".toList = "E".toList := by decide
+example : Src.tbutils.ExceptionInfo.get_formatted_exception_only "E".toList "m".toList = "E: m".toList := by decide
+
+theorem strJoin_empty_pair (a b : Str) : strJoin [] [a, b] = a ++ b := by simp [strJoin]
+
+/-- **tie**: the generated `ExceptionInfo.get_formatted` is the model's `eiFormat` -/
+theorem src_ei_get_formatted_eq_model (frames : List Callpoint) (etype msg : Str) :
+    Src.tbutils.ExceptionInfo.get_formatted etype msg frames = eiFormat frames etype msg := by
+  unfold Src.tbutils.ExceptionInfo.get_formatted eiFormat
+  simp only [lit_empty, strJoin_empty_pair, src_get_formatted_eq_model, src_ei_exc_only_eq_model]
+
+example : Src.tbutils.ExceptionInfo.get_formatted "E".toList "m".toList [⟨"a".toList, 1, "f".toList, [] ⟩]
+    = "Traceback (most recent call last):\n  File \"a\", line 1, in f\nE: m".toList := by decide
+
+theorem lit_dot : ".".toList = ['.'] := by decide
+
+theorem elem_some_pair (m a b : Str) : List.elem (some m) [some a, some b] = [a, b].contains m := by
+  simp [List.elem, List.contains]
+
+/-- **tie**: the display name computed by `ExceptionInfo.from_exc_info` (the statements from `type_str = ...` up to
+    `val_str = ...`) is the model's `typeStr` -/
+theorem src_type_str_eq_model (t : ExcType) : Src.tbutils.ExceptionInfo.type_str t = typeStr t := by
+  unfold Src.tbutils.ExceptionInfo.type_str typeStr plainMods
+  obtain ⟨m, q⟩ := t
+  cases m with
+  | none => simp [List.elem, fmtOS, lit_dot]
+  | some m =>
+    simp only [elem_some_pair, lit_dot]
+    generalize [("__main__".toList), ("builtins".toList)].contains m = b
+    cases b <;> simp [fmtOS]
+
+example : Src.tbutils.ExceptionInfo.type_str ⟨some "pkg.mod".toList, "A.B".toList⟩ = "pkg.mod.A.B".toList := by decide
+example : Src.tbutils.ExceptionInfo.type_str ⟨some "builtins".toList, "ValueError".toList⟩ = "ValueError".toList := by decide
+example : Src.tbutils.ExceptionInfo.type_str ⟨none, "X".toList⟩ = "<unknown>.X".toList := by decide
+
 end C16
